@@ -5,6 +5,16 @@ V = os.path.dirname(os.path.dirname(os.path.abspath(__file__)))
 props = [json.loads(l) for l in open(os.path.join(V, 'properties.jsonl'))]
 MC = 'model_checking'
 CLAIMS = {
+ 'C06': dict(
+    technique='TLA+ byte-level stream decoder model (FrameStream.tla over Wire.tla) checked by TLC; every reachable transition replayed into the real Connection under a paused clock; all splittings of short streams',
+    text='TLC checks on the model that decoding is segmentation independent, leaves nothing decodable pending, is bounded and dies on malformed input, for every stream of menu items (valid messages, unknown ids, wrong length prefixes, oversize, bad handshakes, garbage) and every explored read boundary incl. EOF; each reachable state (stream x previous cut x cut) is then one transition test of the real Connection::recv_frame whose delivered messages, termination and buffered byte count must equal the spec state.',
+    note='Trusted: TLC, Wire.tla transcription of BEP3 framing, in-memory duplex stream instead of TCP, quiescence = pending after 1 ms paused virtual time. Large frames are not in the TLC menu.',
+    ref='DESIGN.md 6/C06, 5.2'),
+ 'C07': dict(
+    technique='TLA+ byte layout (Wire.tla Encode/Parse) with boundary-value case generator (WireCases.tla) enumerated by TLC; cases replayed into Serializer::data / Frame::parse / Bitfield',
+    text='TLC enumerates messages of all eleven kinds over boundary values of every u32 field, payload lengths around 16 KiB and the frame limit, hash/id byte classes, and all bit vectors up to 10 pieces (walking patterns up to 65), computes the BEP3 bytes, and checks the round trip on the model; the real serializer must emit exactly these bytes, the real parser must return the same message and consume exactly its length (also with trailing bytes).',
+    note='Trusted: TLC, Wire.tla, payload expansion in the harness. Values between boundary classes are sampled.',
+    ref='DESIGN.md 6/C07, 5.3'),
  'C15': dict(
     technique='TLA+ canonical encoder Enc (Bencode.tla) and value generator (BValueGen.tla) enumerated by TLC; cases replayed into BEncoder/BDecoder; recorded encoder runs validated by TLC (EncTrace.tla)',
     text='TLC enumerates all value trees up to a token bound over boundary leaves (i64 min/max, binary and delimiter-like strings, prefix keys) together with the canonical encoding computed by the TLA+ encoder; BEncoder must produce exactly these bytes and BDecoder must return the value; every canonical accepted document of the recogniser must re-encode to itself; random deep trees encoded by rdest are validated by TLC. Bounded-exhaustive model-based testing against the TLA+ reference.',
